@@ -183,12 +183,20 @@ fn check_case(c: &Case, rt: &tokio::runtime::Runtime, out: &mut Partial) {
     };
     let mut m = Model::default();
     let mut seen_sigs: BTreeSet<String> = BTreeSet::new();
+    let mut hw_expirable_seen: BTreeSet<i64> = BTreeSet::new();
     let mut hw = i64::MIN;
     let mut ordered = true;
     let mut any_nontrivial = false;
     let mut outputs = 0u64;
     for (i, g) in c.evs.iter().enumerate() {
         let step = m.arrive(c, g);
+        {
+            // did the model retain (for this key) an event that the high-water expiry would drop?
+            let hw_now = if hw == i64::MIN { g.ts } else { hw.max(g.ts) };
+            if (0..c.arity).any(|s| m.retained.get(&(s, g.key)).map(|v| v.iter().any(|(_, t)| *t < hw_now - c.window)).unwrap_or(false)) {
+                hw_expirable_seen.insert(g.key);
+            }
+        }
         if g.ts < hw {
             ordered = false;
         }
@@ -220,7 +228,21 @@ fn check_case(c: &Case, rt: &tokio::runtime::Runtime, out: &mut Partial) {
         }
         let s0 = c.src_of(g);
         let cap_feature = if (0..c.arity).any(|s| m.evicted.contains(&(s, g.key))) { "cap-reached" } else { "below-cap" };
-        let sig = match (&step.expected, &got_flat) {
+        // Root cause B (known finding): expiry runs at the stream's high-water mark although the
+        // window is relative to the arriving event. It can only matter for a late arrival for which
+        // some same-key event of another source is inside the arriving event's window but below
+        // (largest timestamp seen) - window. Every disagreement with that feature gets one signature.
+        let lo_hw_b = hw_before - c.window;
+        let lo_b = g.ts - c.window;
+        let late_feature = (0..c.arity).any(|s| s != s0 && m.history.get(&(s, g.key)).map(|h| h.iter().any(|t| *t >= lo_b && *t < lo_hw_b)).unwrap_or(false));
+        // ... or, with a small per-key cap, an earlier high-water expiry left the real buffer shorter
+        // than the model's, so the cap evicted different events afterwards.
+        let cap_feature_b = (0..c.arity).any(|s| m.evicted.contains(&(s, g.key))) && hw_expirable_seen.contains(&g.key);
+        let explained_b = !ordered && (late_feature || cap_feature_b);
+        let sig = if explained_b {
+            format!("{}/high-water-expiry/late-arrival", base)
+        } else {
+            match (&step.expected, &got_flat) {
             (Some(_), None) => {
                 // which root cause can explain a lost correlation? (features of the witness, finite)
                 let lo_hw = hw_before - c.window;
@@ -239,6 +261,7 @@ fn check_case(c: &Case, rt: &tokio::runtime::Runtime, out: &mut Partial) {
             }
             (None, Some(_)) => format!("{}/extra-output/{}/{}", base, ord, cap_feature),
             _ => format!("{}/wrong-partner/{}/{}", base, ord, cap_feature),
+            }
         };
         if seen_sigs.insert(sig.clone()) {
             let retained: Vec<J> = (0..c.arity)
@@ -311,8 +334,8 @@ fn main() {
         std::process::exit(if p.violations.is_empty() { 0 } else { 1 });
     }
     let threads = ncpu();
-    let n_direct = args.pick(30_000usize, 1_500_000usize);
-    let n_engine = args.pick(3_000usize, 100_000usize);
+    let n_direct = args.pick(50_000usize, 1_500_000usize);
+    let n_engine = args.pick(5_000usize, 100_000usize);
     let parts = parallel(threads, args.seed ^ 0xC15, move |_ti, mut rng| {
         let mut out = Partial::default();
         let rt = rt();
